@@ -33,6 +33,8 @@ ASSUMPTIONS = [
     "scipy.linalg.eigh returns orthonormal eigenvectors (columns) with ascending eigenvalues; residuals measured on every recorded call",
     "np.rad2deg(x) = x * (180/pi); np.sign, np.clip as in NumPy's documentation",
 ]
+PRE_LEAN = C.s2_trace_tensors   # S2: tensors.py kernels re-traced on every run
+EXTRA_LEAN_MODULES = ("Bridge.Tensors",)
 TRUSTED = ["recording proxy placed on pydrex.diagnostics.la (forwards to scipy.linalg)",
            "numpy einsum + an independent Voigt table as reference for rotation, invariants and norms"]
 
